@@ -600,6 +600,58 @@ func (b *e2eBase) multiScenario(tally *engine.Tally) {
 	}
 }
 
+// deactivatedScenario: the committee, nonces and coefficients are fixed at assignment; a member that is deactivated after it
+// was assigned (bandtss does that when the member misses ANOTHER signing) still holds its assignment, and its correct
+// share must be accepted and lead to the group signature.
+func (b *e2eBase) deactivatedScenario(tally *engine.Tally) {
+	w, g := b.w, b.g
+	tk := w.App.TSSKeeper
+	ctx := engine.Fork(b.ctx)
+	cfg := map[string]any{"part": "e2e-deactivated", "n": b.nt.N, "t": b.nt.T}
+	path := []string{fmt.Sprintf("assigned-member-deactivated-before-signing n=%d t=%d", b.nt.N, b.nt.T)}
+	for mi := range g.Accounts {
+		tssh.Must(w.Tx(ctx, 0, tssh.SubmitDEsMsg(g.Accounts[mi].Address.String(), 0, 2)), "DEs")
+	}
+	req, _ := bandtsstypes.NewMsgRequestSignature(tsstypes.NewTextSignatureOrder([]byte("deactivated")), sdk.NewCoins(sdk.NewInt64Coin("uband", 1_000_000)), bandtesting.Alice.Address.String())
+	tssh.Must(w.Tx(ctx, 0, req), "request")
+	sid := tss.SigningID(tk.GetSigningCount(ctx))
+	signing, _ := tk.GetSigning(ctx, sid)
+	sa, _ := tk.GetSigningAttempt(ctx, sid, signing.CurrentAttempt)
+	first := sa.AssignedMembers[0]
+	// the two calls bandtss makes for an idle member of another signing
+	if err := w.App.BandtssKeeper.DeactivateMember(ctx, g.Accounts[int(first.MemberID)-1].Address, g.ID); err != nil {
+		panic(err)
+	}
+	for _, am := range sa.AssignedMembers {
+		sig, err := g.PartialSig(signing, sa, am.MemberID)
+		if err != nil {
+			panic(err)
+		}
+		tally.Eval()
+		if res := w.Tx(ctx, 0, tsstypes.NewMsgSubmitSignature(sid, am.MemberID, sig, g.Accounts[int(am.MemberID)-1].Address.String())); !res.OK() {
+			tally.Violate(cfg, path, "C03/correct-share-rejected", fmt.Sprintf("member %d (deactivated after assignment: %v): %v", am.MemberID, am.MemberID == first.MemberID, res.Err))
+			return
+		}
+	}
+	next, br := w.Block(ctx, 1, 3*time.Second)
+	if br.Halt != "" {
+		tally.Violate(cfg, path, "block-halt", br.Halt)
+		return
+	}
+	signing, _ = tk.GetSigning(next, sid)
+	group, _ := tk.GetGroup(next, g.ID)
+	if signing.Status != tsstypes.SIGNING_STATUS_SUCCESS {
+		tally.Violate(cfg, path, "C03/no-group-signature-after-all-shares", fmt.Sprintf("status %s", signing.Status))
+		return
+	}
+	if ok, err := verifyGroupSig(signing.Signature, group.PubKey, signing.Message); err != nil || !ok {
+		tally.Violate(cfg, path, "C03/published-signature-does-not-verify", fmt.Sprintf("ok=%v err=%v", ok, err))
+		return
+	}
+	tally.Saw("assigned-member-deactivated-before-signing:signed")
+	tally.Nontrivial(path[0])
+}
+
 func runE2E(r *engine.Run, deadline time.Time) {
 	maxN := 5
 	if !r.Quick() {
@@ -632,6 +684,7 @@ func runE2E(r *engine.Run, deadline time.Time) {
 		b.staleScenario(tally)
 		if b.nt.N <= 5 {
 			b.multiScenario(tally)
+			b.deactivatedScenario(tally)
 		}
 		cs := committees(b.nt.N, b.nt.T)
 		if b.nt.N == 22 {
@@ -685,7 +738,7 @@ func init() {
 			}
 			r.Required = []string{"lagrange-done", "lagrange-reject", "group-signature-verified", "good-share-accepted", "bad-share-rejected:scalar-plus-one",
 				"bad-share-rejected:nonce-point-plus-G", "bad-share-rejected:different-message", "bad-share-rejected:lagrange-of-other-committee",
-				"bad-share-rejected:share-under-other-member-id", "bad-share-rejected:unassigned-nonce", "bad-share-rejected:other-members-key-share", "bad-share-rejected:previous-attempt-share", "bad-share-rejected:trailing-byte", "shares-in-expiry-block", "three-signings-completed-in-one-block"}
+				"bad-share-rejected:share-under-other-member-id", "bad-share-rejected:unassigned-nonce", "bad-share-rejected:other-members-key-share", "bad-share-rejected:previous-attempt-share", "bad-share-rejected:trailing-byte", "shares-in-expiry-block", "three-signings-completed-in-one-block", "assigned-member-deactivated-before-signing:signed"}
 			deadline := r.Deadline(4*time.Minute, 40*time.Minute)
 			runLagrange(r, deadline)
 			runE2E(r, deadline)
